@@ -268,6 +268,23 @@ impl Target for PoolTarget {
                 );
                 self.note(4, u.0);
             }
+            "union_nested" => {
+                // the iterator of the outer union interns another union while it is consumed
+                let x = VersionSetId(self.bulk + a - 1);
+                let y = VersionSetId(self.bulk + b - 1);
+                let pool = &self.pool;
+                let mut inner = None;
+                let u = pool.intern_version_set_union(
+                    x,
+                    std::iter::once_with(|| {
+                        inner = Some(pool.intern_version_set_union(y, std::iter::empty()));
+                        y
+                    }),
+                );
+                let inner = inner.expect("the iterator was consumed");
+                self.note(4, inner.0);
+                self.note(4, u.0);
+            }
             o @ ("union1" | "union3" | "union4") => {
                 // members by position (a, 3 - a): <<a>>, <<a, 3-a, a>>, <<a, a, 3-a, a>>;
                 // b = 1: an iterator with an exact size hint, b = 2: one without
